@@ -167,6 +167,10 @@ def compare(lib, page, schema, which: str, ref_out: list = None):
 
 def run_case(chk: Check, mon: Monitors, seed: int, i: int) -> None:
     chk.seed = seed
+    # harness hygiene: simpleTALES raises one module-level exception *instance* for every
+    # missing path, whose __traceback__ chain (frames, their locals) otherwise grows
+    # without bound over a long run (observed: ~100 kB per case)
+    simpleTALES.PATHNOTFOUNDEXCEPTION.__traceback__ = None
     rng = chk.subrng("case", i)
     risky = rng.choice(talref.RISKY) if rng.random() < 0.06 else None
     schema = talref.Schema(rng)
